@@ -1114,7 +1114,29 @@ fn gen_fitting(t: &mut Tape, room: usize) -> El {
 
 fn gen_elements(t: &mut Tape) -> Vec<El> {
     let mut v = vec![];
-    match t.weighted(&[6, 3, 2]) {
+    match t.weighted(&[6, 3, 2, 1]) {
+        3 => {
+            // long lists (a caller trimming an arbitrary list by the reported size): total size
+            // exactly around 2^8, anywhere up to ~1200, or around 2^16 - where a size kept in a
+            // narrower integer wraps. Mostly one repeated element, the last 40 bytes free.
+            let target = match t.weighted(&[4, 2, 2]) {
+                0 => 249 + t.below(16),
+                1 => 41 + t.below(1200),
+                _ => 65_528 + t.below(16),
+            };
+            let filler = gen_element(t);
+            let fs = el_size(&filler);
+            let mut size = 0;
+            while size + fs + 40 <= target {
+                v.push(filler.clone());
+                size += fs;
+            }
+            while size < target {
+                let e = gen_fitting(t, target - size);
+                size += el_size(&e);
+                v.push(e);
+            }
+        }
         0 => {
             // total size exactly `target`; one tape byte decides: 0..=32 or, for the larger part of
             // the byte range, around the 40 byte limit (33..=48)
